@@ -7,7 +7,7 @@ CONSTANTS
   Fix8 = TRUE
   OneShotLate = FALSE
   Masks = {{"R"}, {"W"}, {"R", "W"}}
-  OpKinds = {"en", "dis", "del", "init", "close"}
+  OpKinds = {"en", "dis", "del", "init", "reinit", "close", "arm"}
   MaxOps = 99
   MaxPass = 9999
 SPECIFICATION TSpec
